@@ -20,6 +20,17 @@ CHECKS = {
             "generated.",
             "Trusts itertools.product, math.isqrt-based reference for the divisor sum, and the harness's "
             "reference set of in-grid increments; hyperbolic pairing limited to (x+1)(y+1) <= 2e6."),
+    "C09": ("3/C09",
+            "Hypothesis-generated (family, parameters, n, interval, truncation, split) cases; oracle = harness "
+            "quadrature of x^n*nu(x) with log-substitution at 0, additivity, sign rules, truncation = intersection",
+            "Exploration: each closed-form mass / first / second / n-th moment entry point of HEM, Merton, VG and "
+            "CGMY (five activity branches reached by construction, incl. y=0 and y=1) is compared with an "
+            "independent quadrature of the model's own density over ten interval classes (one-sided, touching 0, "
+            "straddling, half-infinite, whole line) wherever the integral is finite, plus additivity over a drawn "
+            "split point (incl. 0), sign rules and TruncatedLevyMeasure = integral over the intersection. "
+            "Equality is up to a stated numerical tolerance, so deviations below ~1e-7 relative are invisible.",
+            "Trusts scipy.integrate.quad at epsrel 1e-12 on decade-split pieces (validated against closed-form "
+            "incomplete-gamma values to 1e-15); end points in [1e-4,20]; n <= 6."),
 }
 
 NOT_YET = "check not built yet in this session; will be claimed when its module exists"
